@@ -9,7 +9,8 @@ MANIFEST = dict(
          "passes are more than the window apart; sampling gives at most one value per tick, always the latest; time-buffers emit only source values in source order; silence after teardown, and after context cancellation as a count (at most 8 further ticks + flush + terminal + one per late source call - a stream that keeps delivering is rejected). "
          "Tie (weaker than equality, stated honestly): the real operators are run in real time over seeded timelines and the proved acceptor (`accepts -> clause`, and `model run -> accepts`) "
          "must ACCEPT every observed timed trace - acceptance of observed traces, not equality of outputs; only lower bounds on time and order/count relations are judged, so machine load cannot raise an alarm."
-         " RangeWithStepAndInterval shares the range clause with a step: value k is a +- k*step and the completion follows exactly ceil(|b-a|/step) values (accepted_range_complete, rangeCount_exact) - the acceptor rejected the pinned tree's floor (repaired, /repo 37faea0).",
+         " RangeWithStepAndInterval shares the range clause with a step: value k is a +- k*step and the completion follows exactly ceil(|b-a|/step) values (accepted_range_complete, rangeCount_exact) - the acceptor rejected the pinned tree's floor (repaired, /repo 37faea0)."
+         ' cut=deadline:T (context.WithDeadline) cases; RepeatWithInterval through the range clause.',
     technique="Lean 4 proof on a timed model + acceptance of real-time traces by a proved acceptor",
     ref='5/C16')
 
